@@ -34,6 +34,7 @@ def main():
     cfgs = ""
     also = []
     keep = "--keep" in sys.argv
+    rustflags = sys.argv[sys.argv.index("--rustflags") + 1] if "--rustflags" in sys.argv else ""
     if "--cfgs" in sys.argv:
         cfgs = sys.argv[sys.argv.index("--cfgs") + 1]
     if "--also" in sys.argv:
@@ -77,9 +78,26 @@ def main():
     fails_rel = any(r[0] != "ok" for r in results(o5)) or not results(o5)
     meta["demo_fails_with_change"] = {"debug": bool(fails_dbg), "release": bool(fails_rel)}
     meta["ran"].append("cargo test --offline [--release] --test demo (with change): %s / %s" % (results(o4), results(o5)))
-    os.remove(w + "/tests/demo.rs")
-    confirmed = clean_ok and suite_ok and (fails_dbg or fails_rel)
+    fails_flags = False
+    if rustflags:
+        # Configuration-dependent defects: the demo is also run with the stated RUSTFLAGS (own target dir), clean and changed.
+        fenv = dict(os.environ)
+        fenv["RUSTFLAGS"] = rustflags
+        fenv["CARGO_TARGET_DIR"] = w + "/target/flags"
+        _, o6 = sh("cargo test --offline --test demo 2>&1", cwd=w, env=fenv)
+        _, o7 = sh("cargo test --offline --release --test demo 2>&1", cwd=w, env=fenv)
+        fails_flags = any(r[0] != "ok" for r in results(o6) + results(o7)) or not results(o6)
+        sh("git stash -q", cwd=w)
+        _, o8 = sh("cargo test --offline --test demo 2>&1; cargo test --offline --release --test demo 2>&1", cwd=w, env=fenv)
+        sh("git stash pop -q", cwd=w)
+        clean_flags_ok = bool(results(o8)) and all(r[0] == "ok" for r in results(o8))
+        meta["demo_with_rustflags"] = {"rustflags": rustflags, "fails_with_change": bool(fails_flags), "passes_on_clean_tree": bool(clean_flags_ok), "results_with_change": results(o6) + results(o7)}
+        meta["ran"].append("RUSTFLAGS='%s' cargo test --offline [--release] --test demo: with change %s, clean %s" % (rustflags, results(o6) + results(o7), results(o8)))
+        fails_flags = fails_flags and clean_flags_ok
+    confirmed = clean_ok and suite_ok and (fails_dbg or fails_rel or fails_flags)
     meta["confirmed"] = bool(confirmed)
+    if os.path.exists(w + "/tests/demo.rs"):
+        os.remove(w + "/tests/demo.rs")
     print("%s: clean demo ok=%s suite ok=%s demo fails dbg=%s rel=%s => confirmed=%s" % (sid, clean_ok, suite_ok, fails_dbg, fails_rel, confirmed))
 
     meta["checks"] = {}
